@@ -16,6 +16,7 @@ use chumsky_verif_harness::val::*;
 type E<'src> = Rich<'src, char, Sp>;
 type BOp<'src> = pratt::Boxed<'src, 'src, &'src str, Val, Ex<E<'src>>>;
 
+#[derive(Clone)]
 enum OpK {
     Infix(bool, u16),
     Prefix(u16),
@@ -57,10 +58,31 @@ fn build_table<'src>(
     id: &str,
     atom: &G,
     ops: &[(OpK, G)],
+    rec: bool,
 ) -> BP<'src, &'src str, E<'src>> {
+    if rec {
+        // `recursive(|e| atom.pratt(ops))`: `call 0` inside the atom and the operator parsers is `e`
+        let id = id.to_string();
+        let atom = atom.clone();
+        let ops: Vec<(OpK, G)> = ops.iter().map(|(k, g)| (k.clone(), g.clone())).collect();
+        return chumsky::recursive::recursive(move |e| {
+            let cx: Cx<'src, &'src str, E<'src>> = Cx { defs: vec![e.boxed()], base: 0 };
+            build_table_in(&id, &atom, &ops, &cx)
+        })
+        .boxed();
+    }
     let cx: Cx<'src, &'src str, E<'src>> = Cx { defs: vec![], base: 0 };
-    let a = build(atom, &cx);
-    let bops: Vec<BOp<'src>> = ops.iter().map(|(k, g)| build_op(k, build(g, &cx))).collect();
+    build_table_in(id, atom, ops, &cx)
+}
+
+fn build_table_in<'src>(
+    id: &str,
+    atom: &G,
+    ops: &[(OpK, G)],
+    cx: &Cx<'src, &'src str, E<'src>>,
+) -> BP<'src, &'src str, E<'src>> {
+    let a = build(atom, cx);
+    let bops: Vec<BOp<'src>> = ops.iter().map(|(k, g)| build_op(k, build(g, cx))).collect();
     if id.starts_with('t') {
         match bops.len() {
             1 => return a.pratt((bops[0].clone(),)).boxed(),
@@ -99,7 +121,12 @@ pub fn main() {
                 _ => ModeK::Check,
             };
             let _fuel = rd.nat()?;
-            if rd.tok()? != "A" {
+            let mut t = rd.tok()?;
+            let rec = t == "X";
+            if rec {
+                t = rd.tok()?;
+            }
+            if t != "A" {
                 return Err("expected A".into());
             }
             let atom = rd.g()?;
@@ -122,19 +149,19 @@ pub fn main() {
                 return Err("expected I".into());
             }
             let inputs = rd.inputs()?;
-            Ok((id, mode, atom, ops, inputs))
+            Ok((id, mode, atom, ops, inputs, rec))
         })();
         match parsed {
             Err(e) => {
                 let _ = writeln!(w, "ERR {e} :: {line}");
             }
-            Ok((id, mode, atom, ops, inputs)) => {
+            Ok((id, mode, atom, ops, inputs, rec)) => {
                 let strs: Vec<String> = inputs
                     .iter()
                     .map(|ts| ts.iter().map(|&t| char::from_u32(t).unwrap_or('\u{fffd}')).collect())
                     .collect();
                 let strs: &[String] = &strs;
-                let p = build_table(&id, &atom, &ops);
+                let p = build_table(&id, &atom, &ops, rec);
                 for (k, s) in strs.iter().enumerate() {
                     BASE.with(|b| b.set(s.as_ptr() as usize));
                     let obs = run_one::<&str, E>(&p, mode, s.as_str());
